@@ -1,0 +1,21 @@
+// SPDX-FileCopyrightText: 2026 The Pion community <https://pion.ly>
+// SPDX-License-Identifier: MIT
+
+//go:build verif
+
+package flexfec
+
+// VerifSizes returns the number of stream states and the number of media packets pending in
+// their batches (verification harness only).
+func (r *FecInterceptor) VerifSizes() map[string]int {
+	r.mu.Lock()
+	defer r.mu.Unlock()
+	pending := 0
+	for _, s := range r.streams {
+		s.mu.Lock()
+		pending += len(s.packetBuffer)
+		s.mu.Unlock()
+	}
+
+	return map[string]int{"streams": len(r.streams), "pending": pending}
+}
